@@ -294,12 +294,13 @@ def fraction_part(run, scr, ms, nat):
                 while isinstance(err, Opaque) and err.what == "converted error" and err.args:
                     err = err.args[0]         # `?` converts through `From<SourceDiag> for SourceDiag`, the identity
                 info = w.diag_info(err) if isinstance(err, Agg) else dict(severity=None, stage=None, message="")
-                if "Division by zero" in info["message"]:
+                # a refusal although every token parses is the zero-denominator error: a parse-stage Error, raised only for den = 0
+                well_formed = info["severity"] == "Error" and info["stage"] == "Parse"
+                if well_formed:
                     n_zero += 1
-                    items.append(("%s path[%s]: 'Division by zero' is a parse-stage error raised exactly for a zero denominator" % (fname, p),
-                                  pcs + ["(not (and (= %s 0) %s))" % (den.val, "true" if (info["severity"] == "Error" and info["stage"] == "Parse") else "false")], "unsat"))
-                else:
-                    items.append(("%s path[%s]: any other refusal means a token did not parse as an integer" % (fname, p), pcs + [all_ok], "unsat"))
+                items.append(("%s path[%s]: a refusal means a token did not parse as an integer, or - as a parse-stage error - that the "
+                              "denominator is zero" % (fname, p),
+                              pcs + [all_ok, "(not (and (= %s 0) %s))" % (den.val, "true" if well_formed else "false")], "unsat"))
         if n_ok == 0 or n_zero == 0:
             run.inconclusive.append("%s: expected a success path and a division-by-zero path, found %d / %d" % (fname, n_ok, n_zero))
 
@@ -440,9 +441,9 @@ def judge_fractions(nat, profile="debug"):
         if "error" in r or r.get("panic"):
             bad.append("%r: parse failed %s" % (text, r))
             continue
-        got = any("Division by zero" in e for e in r.get("errors", []))
+        got = bool(r.get("errors"))       # whatever its wording: these quantities have no other defect
         if got != want or (want and r.get("has_output")):
-            bad.append("%r: division-by-zero error %s (output: %s), expected %s" % (text, "reported" if got else "not reported", r.get("has_output"), "one and no output" if want else "none"))
+            bad.append("%r: zero-denominator error %s (output: %s), expected %s" % (text, "reported" if got else "not reported", r.get("has_output"), "one and no output" if want else "none"))
     return bad
 
 
@@ -490,9 +491,9 @@ def judge(nat, profile="debug"):
         if "error" in r or r.get("panic"):
             bad.append("%r: parse failed %s" % (text, r))
             continue
-        got = len([w for w in r["warnings"] if "scaling lock" in w.lower()])
-        if got != want:
-            bad.append("%r: %d scaling-lock warning(s), expected %d (warnings: %s)" % (text, got, want, r["warnings"]))
+        got = len(r["warnings"])          # whatever its wording: these recipes have no other reason to warn
+        if (got == 0) != (want == 0):
+            bad.append("%r: %d warning(s), expected %s (warnings: %s)" % (text, got, "none" if want == 0 else "the useless-scaling-lock warning", r["warnings"]))
     return bad
 
 
